@@ -2093,6 +2093,11 @@ func decodeSCMP(scmp *slayers.SCMP) ([]gopacket.SerializableLayer, error) {
 // afterwards (and the preceding headers, if any).
 func updateSCIONLayer(rawPkt []byte, s slayers.SCION) error {
 	payloadOffset := len(rawPkt) - len(s.LayerPayload())
+	if slayers.CmnHdrLen+s.AddrHdrLen()+s.Path.Len() != payloadOffset {
+		// The header is rewritten in place: it must occupy exactly the bytes of the received one
+		// (a HdrLen that leaves slack after the path would shift it and corrupt the packet).
+		return errBadPacketSize
+	}
 
 	// Prepends must go just before payload. (and any Append will wreck it)
 	serBuf := newSerializeProxyStart(rawPkt, payloadOffset)
